@@ -81,6 +81,13 @@ func Search(rep *report.Report, label string, o *Options, depth int, deadline ti
 	return res
 }
 
+// SearchAll is Search without deduplication by canonical state (every history up to the depth is expanded).
+func SearchAll(rep *report.Report, label string, o *Options, depth int, deadline time.Time) mc.Result {
+	res := mc.BFS(mc.Config{Letters: Names(o.Letters), New: New(o), MaxDepth: depth, Deadline: deadline, NoDedup: true})
+	Merge(rep, label, res, depth)
+	return res
+}
+
 // Merge adds a BFS result to the report.
 func Merge(rep *report.Report, label string, res mc.Result, depth int) {
 	rep.Add("states", res.States)
@@ -114,7 +121,7 @@ var c01Letters = []string{
 // RunC01 decides C01 at the RIB tier.
 func RunC01(rep *report.Report, tier string) {
 	depth := 4
-	ck := NewClock(tier, 100*time.Second, 20*time.Minute, 10)
+	ck := NewClock(tier, 100*time.Second, 20*time.Minute, 13)
 	if tier == "thorough" {
 		depth = 6
 	}
@@ -122,9 +129,15 @@ func RunC01(rep *report.Report, tier string) {
 	rep.Set("alphabet", Names(letters))
 	// cheapest searches first: what a search does not use of its share of the budget rolls over to the later ones
 	fullSearches(rep, tier, ck, Checks{Fold: true}, 0)
-	for _, name := range []string{"held-operations", "groups-installed", "entries-installed"} {
+	for _, name := range []string{"held-operations", "groups-installed", "entries-installed", "two-next-hops"} {
 		o := &Options{Letters: letters, Checks: Checks{Fold: true}, Init: Alphabet(ribInits[name]...)}
 		Search(rep, "rib/from-"+name, o, depth-1, ck.Next())
+	}
+	// every history of three letters from two start states WITHOUT deduplication: hidden state (a counter, a cache)
+	// that the canonical form cannot contain is only visible to histories the deduplicating searches merge away
+	for _, name := range []string{"two-next-hops", "groups-installed"} {
+		o := &Options{Letters: letters, Checks: Checks{Fold: true}, Init: Alphabet(ribInits[name]...)}
+		SearchAll(rep, "rib/from-"+name+"/every-history-no-deduplication", o, 3, ck.Next())
 	}
 	rt.MapOrder = 1 // descending iteration order of every map of the instrumented packages (held-operation walk)
 	o := &Options{Letters: letters, Checks: Checks{Fold: true}, Init: Alphabet(ribInits["held-operations"]...)}
@@ -166,6 +179,8 @@ func fullSearches(rep *report.Report, tier string, ck *Clock, checks Checks, hoo
 var ribInits = map[string][]string{
 	"held-operations":  {"ADD v4 p@D ->1", "ADD v4 p@D ->1 meta", "ADD v6 q@D ->1", "ADD nhg1@D {1,2}", "ADD v4 p@V ->1@D"},
 	"groups-installed": {"ADD nh1@D a", "ADD nh2@D", "ADD nh1@V", "ADD nhg1@D {1,2}", "ADD nhg1@V {1}"},
+	// two entries of one table and nothing else (short histories that delete absent keys, then present ones, then flush)
+	"two-next-hops": {"ADD nh1@D a", "ADD nh2@D"},
 	// asymmetric on purpose: the second network instance exists but is EMPTY
 	"groups-in-default-only": {"ADD nh1@D a", "ADD nh2@D", "ADD nhg1@D {1,2}"},
 	"entries-installed":      {"ADD nh1@D a", "ADD nh2@D", "ADD nh1@V", "ADD nhg1@D {1,2}", "ADD nhg1@V {1}", "ADD v4 p@D ->1 meta", "ADD v4 p@V ->1@D", "ADD v6 q@D ->1", "ADD mpls 100@D ->1"},
@@ -173,7 +188,7 @@ var ribInits = map[string][]string{
 
 var c02Letters = []string{
 	"ADD nh1@D a", "DELETE nh1@D", "ADD nh2@D", "DELETE nh2@D", "ADD nh1@V",
-	"ADD nhg1@D {1}", "ADD nhg1@D {1,2}", "REPLACE nhg1@D {2}", "DELETE nhg1@D", "ADD nhg2@D {2}", "ADD nhg2@D {2} backup 1", "ADD nhg1@V {1}",
+	"ADD nhg1@D {1}", "ADD nhg1@D {1,2}", "REPLACE nhg1@D {2}", "DELETE nhg1@D", "ADD nhg2@D {2}", "ADD nhg2@D {2} backup 1", "DELETE nhg2@D", "ADD nhg1@V {1}",
 	"ADD v4 p@D ->1", "ADD v4 p@D ->1@V", "REPLACE v4 p@D ->2", "DELETE v4 p@D",
 	"ADD v6 q@D ->1", "ADD v6 q@D ->1@V", "DELETE v6 q@D", "ADD mpls 100@D ->1", "ADD mpls 100@D ->1@V", "DELETE mpls 100@D", "FLUSH all",
 	"ADD nhg3@D {0}", "ADD nhg3@D {}", "ADD v4 s@D ->0", "ADD v4 s@D ->1@NOPE",
@@ -259,7 +274,7 @@ var c03Letters = []string{
 // RunC03 decides C03 at the RIB tier.
 func RunC03(rep *report.Report, tier string) {
 	depth := 4
-	ck := NewClock(tier, 100*time.Second, 20*time.Minute, 7+len(c03Inits))
+	ck := NewClock(tier, 100*time.Second, 20*time.Minute, 8+len(c03Inits))
 	names := append([]string{}, c03Letters...)
 	if tier == "thorough" {
 		depth = 6
@@ -273,6 +288,10 @@ func RunC03(rep *report.Report, tier string) {
 		init := c03Inits[name]
 		o := &Options{Letters: letters, Checks: Checks{Referrers: true}, Init: Alphabet(init...)}
 		Search(rep, "rib/from-"+name, o, depth-1, ck.Next())
+	}
+	{
+		o := &Options{Letters: letters, Checks: Checks{Referrers: true}, Init: Alphabet(c03Inits["groups-installed"]...)}
+		SearchAll(rep, "rib/from-groups-installed/every-history-no-deduplication", o, 2, ck.Next())
 	}
 	rt.MapOrder = 1 // descending iteration order of every map of the instrumented packages
 	for _, name := range []string{"groups-installed", "cross-instance"} {
@@ -379,6 +398,7 @@ var c07Letters = []string{
 	"ADD nhg1@D {1}", "ADD nhg1@D {1,2}", "ADD nh2@D", "DELETE nhg1@D", "ADD nhg1@V {1}",
 	"ADD v4 p@D ->1", "ADD v4 p@D ->1 meta", "ADD v4 p@D ->1@V", "DELETE v4 p@D", "ADD v4 p@V ->1",
 	"ADD v6 q@D ->1", "ADD v6 q@D ->1@V", "DELETE v6 q@D", "ADD mpls 100@D ->1", "REPLACE mpls 100@D ->1@V", "DELETE mpls 100@D",
+	"ADD v4 P@D ->1", "DELETE v4 P@D", "ADD v6 H@D ->1", "DELETE v6 H@D",
 	"FLUSH D", "FLUSH V", "FLUSH all",
 }
 
